@@ -29,6 +29,7 @@ type specEnv struct {
 	guard   Term
 	nq      *int
 	loop    *loopInfo // clause attached to this loop: its body's variables shadow outer ones
+	depth   int       // > 0 while evaluating the contract of a pure function used inside a contract
 }
 
 func specErr(format string, a ...any) unsupportedErr {
@@ -586,7 +587,12 @@ func (e *specEnv) index(base, idx specVal) specVal {
 		if !ok || !v.mapValueSupported(bt) {
 			panic(specErr("unsupported map type in contract"))
 		}
-		return specVal{V: v.mapRead(e.st, bt, base.V.(Sc).T, key, e.g()), T: bt.Elem()}
+		// Go semantics: the zero value when the key is absent (or the map is nil)
+		m := base.V.(Sc).T
+		dom, _ := v.mapParts(e.st, bt, m)
+		in := And(Not(Eq(m, tZero)), Select(dom, key, SBool))
+		raw := v.mapRead(e.st, bt, m, key, e.g())
+		return specVal{V: valIte(in, raw, zeroVal(bt.Elem(), v.sc), bt.Elem()), T: bt.Elem()}
 	case *types.Basic:
 		if bt.Info()&types.IsString != 0 {
 			return specVal{V: Sc{app(SInt, "str.to_code", app(SStr, "str.at", base.V.(Sc).T, it.(Sc).T))}, T: types.Typ[types.Uint8]}
@@ -1010,6 +1016,27 @@ func (e *specEnv) call(c SCall) specVal {
 			base := v.emitCount(e.old, lit.Val)
 			arr := v.emitArr(e.st, lit.Val, j, so)
 			return specVal{V: Sc{Select(arr, Add(base, n), so)}, T: ty}
+		case "lastResult":
+			callee := e.resolveFuncRef(c.Args[0])
+			if callee == nil {
+				panic(specErr("lastResult(): cannot resolve function %v", c.Args[0]))
+			}
+			res := callee.Signature.Results()
+			var rt types.Type = res
+			if res.Len() == 1 {
+				rt = res.At(0).Type()
+			}
+			sorts := flatSorts(rt)
+			ts := make([]Term, len(sorts))
+			for i, so := range sorts {
+				t, ok := e.st.ghost[fmt.Sprintf("res#%s#%d", FuncKey(callee), i)]
+				if !ok || t.Sort != so {
+					t = v.sc.Fresh("nores", so)
+				}
+				ts[i] = t
+			}
+			val, _ := unflatten(rt, ts)
+			return specVal{V: val, T: rt}
 		case "called", "errSeen":
 			callee := e.resolveFuncRef(c.Args[0])
 			if callee == nil {
@@ -1133,7 +1160,35 @@ func (e *specEnv) call(c SCall) specVal {
 		rt = res.At(0).Type()
 	}
 	if con := v.w.Contracts.ByFunc[callee]; con != nil && con.Pure {
-		return specVal{V: v.pureApp(callee, avs, e.st, rt, e.g()), T: rt}
+		res := v.pureApp(callee, avs, e.st, rt, e.g())
+		// the contract of the pure function holds for this application too (one level: no unfolding of recursion)
+		if e.depth == 0 && len(con.Ensures) > 0 && e.bound == nil {
+			sub := &frame{fn: callee, params: avs, depth: e.fr.depth + 1, vals: map[ssa.Value]Val{}}
+			for i, p := range callee.Params {
+				sub.vals[p] = avs[i]
+			}
+			sub.entry = e.st
+			var pre []Term
+			ok := true
+			for _, c := range con.Requires {
+				env := &specEnv{v: v, fr: sub, st: e.st, old: e.st, depth: 1}
+				t, good := tryEvalBool(env, c.Expr)
+				if !good {
+					ok = false
+					break
+				}
+				pre = append(pre, t)
+			}
+			if ok {
+				for _, c := range con.Ensures {
+					env := &specEnv{v: v, fr: sub, st: e.st, old: e.st, result: res, resType: callee.Signature.Results(), depth: 1}
+					if t, good := tryEvalBool(env, c.Expr); good {
+						v.sc.Assert(Implies(And(append([]Term{e.g()}, pre...)...), t))
+					}
+				}
+			}
+		}
+		return specVal{V: res, T: rt}
 	}
 	if v.canInline(e.fr, callee) {
 		tmp := e.st.clone()
